@@ -43,6 +43,14 @@ def gen_cases(tier, seed):
         faults = rng.choice([None, None, 0.1, 0.25, 0.4])
         cancel = None if rng.random() < 0.75 else [rng.choice("SD"), rng.randrange(1, 12)]
         cases.append({"t": "pair", "cfg": cfg, "faults": faults, "cancel": cancel, "seed": seed * 1_000_003 + i})
+    # two users of one process, each with an in-memory filestore of its own, whose (virtual) path names, sizes and checksum types are the
+    # same while the contents differ: what one handler reads must come from its own user's filestore
+    for j in range(150 if tier == "quick" else 3000):
+        seg = rng.choice([3, 4, 8])
+        cfg = {"mode": rng.choice(["ack", "unack"]), "closure": rng.random() < 0.5, "seg": seg, "size": rng.choice([1, seg, 3 * seg + 1]),
+               "cks": rng.choice(["crc32", "crc32c", "modular"]), "crc": rng.random() < 0.3, "dest": rng.choice(["file", "dir"]), "maxpkt": 128}
+        cases.append({"t": "two_users", "cfg": cfg, "other_at": rng.choice(["WAITING_FOR_EOF_ACK", "SENDING_FILE_DATA", "IDLE_AFTER_TRANSACTION"]),
+                      "contents": rng.sample([0, 1, 2, 3], 2)})
     if tier == "thorough":
         for j in range(16):
             cases.append({"t": "strace", "seed": seed * 1_000_003 + 900_000 + j, "n": 150})
@@ -79,7 +87,8 @@ def one_run(case, fs):
 
 
 def normalized_trace(w: World):
-    name = w.sandbox.name.encode()
+    name = (w.sandbox.name if w.sandbox is not None else "\0no-sandbox\0").encode()
+    sbname = name.decode()
     out = []
     for e in w.log.events:
         k = e["kind"]
@@ -96,7 +105,7 @@ def normalized_trace(w: World):
                 if a in ("seq", "kind", "side"):
                     continue
                 if isinstance(b, str):
-                    b = b.replace(w.sandbox.name, "SANDBOX")
+                    b = b.replace(sbname, "SANDBOX")
                 items.append((a, repr(b)))
             out.append((e["side"], k, tuple(items)))
         elif k == "exc":
@@ -263,7 +272,55 @@ def run_strace(case):
         shutil.rmtree(d, ignore_errors=True)
 
 
+def run_two_users(case):
+    from .. import prep
+
+    viol, obs = [], {}
+    cfg_a = dict(case["cfg"], fs="mem", root_tag="shared-by-two-users", content=case["contents"][0], mode="ack")
+    cfg_b = dict(case["cfg"], fs="mem", root_tag="shared-by-two-users", content=case["contents"][1])
+
+    def run_b():
+        w = World(cfg_b)
+        r = Runner(w, max_expiries=10, max_rounds=1500)
+        try:
+            w.put()
+            out = r.run()
+        except InternalError as e:
+            out = "internal-error:" + type(e.exc).__name__
+        return w, out
+
+    wb0, out0 = run_b()
+    t_solo, dest_solo = normalized_trace(wb0), wb0.dest_bytes()
+    wb0.close()
+    with World(cfg_a) as wa:
+        if not prep.src_to(wa, case["other_at"]):
+            return {"viol": [{"clause": "harness-could-not-prepare-other-user", "step": wa.S.h.step.name}], "obs": obs, "sig": None, "sample": None}
+        wb, out = run_b()
+        try:
+            t_b, dest_b = normalized_trace(wb), wb.dest_bytes()
+            ops_b = [e["op"] for e in wb.log.events if e["kind"] == "fs" and e["side"] == "S"]
+            if out != out0 or t_b != t_solo:
+                j = next((i for i, (a, b) in enumerate(zip(t_solo, t_b)) if a != b), min(len(t_solo), len(t_b)))
+                viol.append({"clause": "transfer-differs-next-to-another-user-with-equal-path-names", "first_difference_at": j, "alone": _brief(t_solo[j : j + 2]),
+                             "next_to_other_user": _brief(t_b[j : j + 2]), "outcomes": (out0, out), "other_user_at": case["other_at"]})
+            elif dest_b != dest_solo or dest_b != wb.data:
+                viol.append({"clause": "destination-file-differs-next-to-another-user", "other_user_at": case["other_at"]})
+            else:
+                obs["two_user_runs_equal_to_solo"] = 1
+            if "calculate_checksum" not in ops_b:
+                viol.append({"clause": "sender-never-asked-its-own-filestore-for-the-checksum", "ops": ops_b[:12]})
+        finally:
+            wb.close()
+    obs["two_user_runs"] = 1
+    obs["two_user_other_at_" + case["other_at"]] = 1
+    for v in viol:
+        v["cfg"] = case["cfg"]
+    return {"viol": viol, "obs": obs, "sig": case, "sample": None}
+
+
 def run_case(case):
+    if case["t"] == "two_users":
+        return run_two_users(case)
     return run_pair(case) if case["t"] == "pair" else run_strace(case)
 
 
@@ -274,6 +331,6 @@ def finalize(ctx):
     return [], inc
 
 
-REQUIRED = {"traces_equal_to_native": 500, "filestore_operations_in_memory_run": 10000, "cancel_time_checksums": 50, "faulty_runs": 300, "runs_with_retransmission": 100,
+REQUIRED = {"two_user_runs_equal_to_solo": 100, "traces_equal_to_native": 500, "filestore_operations_in_memory_run": 10000, "cancel_time_checksums": 50, "faulty_runs": 300, "runs_with_retransmission": 100,
             "op_read_data": 1, "op_write_data": 1, "op_calculate_checksum": 1, "op_file_size": 1, "op_file_exists": 1, "op_create_file": 1, "op_truncate_file": 1,
             "op_delete_file": 1, "op_is_directory": 1, "strace_transfers": {"quick": 0, "thorough": 10}}
